@@ -4,9 +4,19 @@ The prompt contains only the property text; nothing from /verif is shown to the 
 import json, os, subprocess, sys
 V = os.path.dirname(os.path.dirname(os.path.abspath(__file__)))
 pid = sys.argv[1]
+ROUND2 = len(sys.argv) > 2 and sys.argv[2] == '2'
+VA, VB = ('C', 'D') if ROUND2 else ('A', 'B')
 p = [json.loads(l) for l in open(os.path.join(V, 'properties.jsonl')) if json.loads(l)['id'] == pid][0]
-W = '/tmp/seedwt_%s' % pid
-O = '/tmp/seedout_%s' % pid
+W = '/tmp/seedwt_%s%s' % (pid, '_r2' if ROUND2 else '')
+O = '/tmp/seedout_%s%s' % (pid, '_r2' if ROUND2 else '')
+prev = ''
+if ROUND2:
+    import glob
+    lines = []
+    for d in sorted(glob.glob(os.path.join(V, 'seeded', pid + '-*'))):
+        m = json.load(open(os.path.join(d, 'meta.json')))
+        lines.append('  - ' + (m.get('summary') or m.get('what_it_breaks') or '')[:400].replace('\n', ' '))
+    prev = ('\nOther people have already produced the following breaking changes for this property; yours must be DIFFERENT (another function, another mechanism, another aspect of the statement) — do not redo these:\n' + '\n'.join(lines) + '\n')
 if not os.path.exists(W):
     subprocess.check_call(['git', '-C', '/repo', 'worktree', 'add', '--detach', '-f', W, 'HEAD'], stdout=subprocess.DEVNULL, stderr=subprocess.DEVNULL)
 os.makedirs(O, exist_ok=True)
@@ -20,13 +30,14 @@ Androguard is supposed to satisfy this semantic property:
   quantified over: {p['quantifier']['text']}
   code it is anchored in: {', '.join(p['anchors']['files'])}
 
-Your task: produce TWO different, realistic code changes (A and B, in different functions/mechanisms if possible) to androguard, each of which BREAKS this property, such that for each change:
+{prev}
+Your task: produce TWO different, realistic code changes ({VA} and {VB}, in different functions/mechanisms if possible) to androguard, each of which BREAKS this property, such that for each change:
  (a) the code still imports and runs;
  (b) the project's existing test suite still passes exactly as before — run at least the relevant test files, e.g. `cd {W} && PYTHONPATH={W} /venv/bin/python -m pytest -q -p no:cacheprovider tests/test_<x>.py` (the whole suite takes ~6 minutes; these tests fail even on the unchanged code and can be ignored: test_apk.py::APKTest::testAPK, testCustomPermissionProtectionLevel, testFeatures, testFrameworkResAPK, testMultipleLocaleAppName, test_strings.py::StringTest::testMUTF8). IMPORTANT: set PYTHONPATH={W}, otherwise python imports the installed copy instead of your worktree;
  (c) the breakage needs something specific to manifest — a particular unusual input or boundary value, a multi-step sequence of operations, a specific ordering/interleaving, or two cooperating sites that each look fine alone — NOT something ordinary use or a trivial smoke test exposes at once. Think of the kind of bug a developer introduces while refactoring, optimising or "simplifying" code and that survives code review and CI: an off-by-one at a boundary, a wrong mask/shift for a rare width, a cache keyed too coarsely, a special case dropped, a condition flipped for a rare branch, state not reset, etc. Do not make the change obviously malicious or gratuitous (no `if x == 12345:` triggers).
 
-For each change deliver in {O}/A and {O}/B:
-  patch.diff  — `git -C {W} diff` of that change alone (reset the worktree with `git -C {W} checkout -- .` between A and B);
-  demo.py     — a self-contained demonstration run as `cd {W} && PYTHONPATH={W} /venv/bin/python {O}/A/demo.py`: exits 0 (prints OK) on the UNCHANGED code and exits non-zero with a clear message when the change is applied. It builds its input in code or uses files under {W}/tests/data (some big APKs there are emptied placeholders; check file sizes) and asserts behaviour that follows from the property statement (not incidental behaviour);
-  meta.json   — {{"property": "{p['id']}", "variant": "A", "summary": "...", "what_it_breaks": "...", "needs_to_manifest": "...", "files_changed": [...], "tests_run": "command + result"}}.
-Verify both directions yourself (demo passes with `git stash`/clean tree, fails with the patch; the tests pass with the patch). If the property already fails on the unchanged code for the inputs you first try (androguard has bugs), pick a different aspect of the property that currently works and break that. Leave the worktree clean (`git -C {W} checkout -- .`) when done. Final answer: a short description of A and B and the exact commands you ran with their outcomes.""")
+For each change deliver in {O}/{VA} and {O}/{VB}:
+  patch.diff  — `git -C {W} diff` of that change alone (reset the worktree with `git -C {W} checkout -- .` between {VA} and {VB});
+  demo.py     — a self-contained demonstration run as `cd {W} && PYTHONPATH={W} /venv/bin/python {O}/{VA}/demo.py`: exits 0 (prints OK) on the UNCHANGED code and exits non-zero with a clear message when the change is applied. It builds its input in code or uses files under {W}/tests/data (some big APKs there are emptied placeholders; check file sizes) and asserts behaviour that follows from the property statement (not incidental behaviour);
+  meta.json   — {{"property": "{p['id']}", "variant": "{VA}", "summary": "...", "what_it_breaks": "...", "needs_to_manifest": "...", "files_changed": [...], "tests_run": "command + result"}}.
+Verify both directions yourself (demo passes with `git stash`/clean tree, fails with the patch; the tests pass with the patch). If the property already fails on the unchanged code for the inputs you first try (androguard has bugs), pick a different aspect of the property that currently works and break that. Leave the worktree clean (`git -C {W} checkout -- .`) when done. Final answer: a short description of {VA} and {VB} and the exact commands you ran with their outcomes.""")
